@@ -7,6 +7,7 @@ import DnaModel.Model.Loc
 import DnaModel.Model.Pattern
 import DnaModel.Model.Space
 import DnaModel.Model.TableSpec
+import DnaModel.Model.Builtin
 
 open Dna
 
@@ -361,6 +362,147 @@ def handleSolve (toks : List String) : Option String :=
     | _ => none
   | _ => none
 
+/-! ### built-in specifications -/
+
+def patStr : Pattern → String
+  | .dna q => "dna:" ++ seqStr q
+  | .repeated n k => s!"rep:{n}:{k}"
+
+def pat? (s : String) : Option Pattern :=
+  match s.splitOn ":" with
+  | ["dna", q] => some (.dna (seqOf q))
+  | ["rep", n, k] => do pure (.repeated (← nat? n) (← nat? k))
+  | _ => none
+
+def fbits (x : Float) : String := toString x.toBits.toNat
+
+def optNatStr : Option Nat → String
+  | none => "-"
+  | some n => toString n
+
+def seqsStr (l : List Seq) : String := if l.isEmpty then "-" else joinWith "," (l.map seqStr)
+def seqs? (s : String) : List Seq := if s == "-" then [] else (s.splitOn ",").map seqOf
+
+def scopeStr : Scope → String
+  | .loc l => s!"L:{l.start}:{l.stop}:{l.strand}"
+  | .indices l idx => s!"I:{l.start}:{l.stop}:{l.strand}:" ++ (if idx.isEmpty then "-" else joinWith "," (idx.map toString))
+
+def scope? (s : String) : Option Scope :=
+  match s.splitOn ":" with
+  | ["L", a, b, c] => do pure (.loc ⟨← int? a, ← int? b, ← int? c⟩)
+  | ["I", a, b, c, idx] => do
+    let l : Loc := ⟨← int? a, ← int? b, ← int? c⟩
+    let is ← if idx == "-" then some [] else (idx.splitOn ",").mapM int?
+    pure (.indices l is)
+  | _ => none
+
+def startStr : StartPolicy → String
+  | .none => "-"
+  | .keep => "keep"
+  | .codons cs => seqsStr cs
+
+def start? (s : String) : StartPolicy :=
+  if s == "-" then .none else if s == "keep" then .keep else .codons (seqs? s)
+
+def optF? (s : String) : Option (Option Float) := optFloat? s
+def optFStr : Option Float → String
+  | none => "-"
+  | some x => fbits x
+
+def kvF? (s : String) : Option (List (Seq × Float)) :=
+  if s == "-" then some [] else (s.splitOn ",").mapM (fun t => match t.splitOn "=" with
+    | [k, v] => do pure (seqOf k, ← floatOf? v)
+    | _ => none)
+def kvFStr (l : List (Seq × Float)) : String :=
+  if l.isEmpty then "-" else joinWith "," (l.map (fun p => seqStr p.1 ++ "=" ++ fbits p.2))
+
+def kvCharF? (s : String) : Option (List (Char × Float)) :=
+  (kvF? s).bind (fun l => l.mapM (fun p => match p.1 with | [c] => some (c, p.2) | _ => none))
+def kvCharFStr (l : List (Char × Float)) : String := kvFStr (l.map (fun p => ([p.1], p.2)))
+
+def kvAA? (s : String) : Option (List (Seq × Char)) :=
+  if s == "-" then some [] else (s.splitOn ",").mapM (fun t => match t.splitOn "=" with
+    | [k, v] => (match v.toList with | [c] => some (seqOf k, c) | _ => none)
+    | _ => none)
+def kvAAStr (l : List (Seq × Char)) : String :=
+  if l.isEmpty then "-" else joinWith "," (l.map (fun p => seqStr p.1 ++ "=" ++ String.singleton p.2))
+
+def locTok (l : Loc) : String := s!"{l.start}:{l.stop}:{l.strand}"
+def locTok? (s : String) : Option Loc :=
+  match s.splitOn ":" with
+  | [a, b, c] => do pure ⟨← int? a, ← int? b, ← int? c⟩
+  | _ => none
+
+def bspecStr : BSpec Float → String
+  | .avoidPattern p l => s!"AvoidPattern {patStr p} {locTok l}"
+  | .patternOccurence p o l => s!"Occ {patStr p} {o} {locTok l}"
+  | .gc mi ma w l => s!"GC {fbits mi} {fbits ma} {optNatStr w} {locTok l}"
+  | .translation t st tr l => s!"CDS {t} {startStr st} {seqStr tr} {locTok l}"
+  | .stopCodons t l => s!"Stop {t} {locTok l}"
+  | .avoidChanges me tg sc => s!"Keep {fbits me} {seqStr tg} {scopeStr sc}"
+  | .enforceChanges mi am ap mp rf sc => s!"Change {optFStr mi} {optFStr am} {ap} {mp} {seqStr rf} {scopeStr sc}"
+  | .enforceSequence sq l => s!"Seq {seqStr sq} {locTok l}"
+  | .enforceChoice cs l => s!"Choice {seqsStr cs} {locTok l}"
+  | .terminalGC mi ma w es => s!"Term {fbits mi} {fbits ma} {w} " ++ (if es.isEmpty then "-" else joinWith "," (es.map locTok))
+  | .lengthBounds a b => s!"Len {a} " ++ (match b with | none => "-" | some v => toString v)
+  | .rareCodons mf fr l => s!"Rare {fbits mf} {kvFStr fr} {locTok l}"
+  | .cai lf lb ca l => s!"CAI {kvFStr lf} {kvCharFStr lb} {kvAAStr ca} {locTok l}"
+
+def bspec? : List String → Option (BSpec Float)
+  | ["AvoidPattern", p, l] => do pure (.avoidPattern (← pat? p) (← locTok? l))
+  | ["Occ", p, o, l] => do pure (.patternOccurence (← pat? p) (← int? o) (← locTok? l))
+  | ["GC", mi, ma, w, l] => do
+    pure (.gc (← floatOf? mi) (← floatOf? ma) (← (if w == "-" then some none else (nat? w).map some)) (← locTok? l))
+  | ["CDS", t, st, tr, l] => do pure (.translation (← nat? t) (start? st) (seqOf tr) (← locTok? l))
+  | ["Stop", t, l] => do pure (.stopCodons (← nat? t) (← locTok? l))
+  | ["Keep", me, tg, sc] => do pure (.avoidChanges (← floatOf? me) (seqOf tg) (← scope? sc))
+  | ["Change", mi, am, ap, mp, rf, sc] => do
+    pure (.enforceChanges (← optF? mi) (← optF? am) (ap == "true") (mp == "true") (seqOf rf) (← scope? sc))
+  | ["Seq", sq, l] => do pure (.enforceSequence (seqOf sq) (← locTok? l))
+  | ["Choice", cs, l] => do pure (.enforceChoice (seqs? cs) (← locTok? l))
+  | ["Term", mi, ma, w, es] => do
+    let ends ← if es == "-" then some [] else (es.splitOn ",").mapM locTok?
+    pure (.terminalGC (← floatOf? mi) (← floatOf? ma) (← nat? w) ends)
+  | ["Len", a, b] => do pure (.lengthBounds (← int? a) (← optInt? b))
+  | ["Rare", mf, fr, l] => do pure (.rareCodons (← floatOf? mf) (← kvF? fr) (← locTok? l))
+  | ["CAI", lf, lb, ca, l] => do pure (.cai (← kvF? lf) (← kvCharF? lb) (← kvAA? ca) (← locTok? l))
+  | _ => none
+
+def locsOptStr : Option (List Loc) → String
+  | none => "None"
+  | some [] => "e"
+  | some ls => joinWith "," (ls.map locTok)
+
+def handleSpec (toks : List String) : Option String :=
+  match toks with
+  | cmd :: rest =>
+    match cmd, splitBar rest with
+    | "spec.eval", [_, spec, [sq]] => do
+      let b ← bspec? spec
+      pure (match b.evaluate (seqOf sq) with
+        | none => "raises"
+        | some e => s!"{fbits e.score} ; {locsOptStr e.locs}")
+    | "spec.local", [_, spec, [l, rh]] => do
+      let b ← bspec? spec
+      let loc ← locTok? l
+      let rh ← (if rh == "-" then some none else (bool? rh).map some)
+      pure (match b.localized loc rh with
+        | .none => "none"
+        | .same => "same"
+        | .typeError => "typeerror"
+        | .new b' => bspecStr b')
+    | "spec.restrict", [_, spec, [sq]] => do
+      let b ← bspec? spec
+      pure (match b.restrict (seqOf sq) with
+        | none => "raises"
+        | some rs => if rs.isEmpty then "-" else
+            joinWith " " (rs.map (fun r => s!"{r.start}:{r.stop}:{sortedVariants r.variants}")))
+    | "tables.index", [_, [name]] => do
+      let i ← lookup (name.replace "_" " ") Gen.codonTableNames
+      pure (toString i)
+    | _, _ => none
+  | _ => none
+
 def handle (toks : List String) : String :=
   match toks with
   | [] => "bad-op"
@@ -372,6 +514,7 @@ def handle (toks : List String) : String :=
       else if cmd.startsWith "space." then handleSpace toks
       else if cmd.startsWith "choice." then handleChoice toks
       else if cmd.startsWith "solve." then handleSolve toks
+      else if cmd.startsWith "spec." || cmd.startsWith "tables." then handleSpec toks
       else none
     r.getD "bad-op"
 
